@@ -2,6 +2,7 @@ import CnfgenModel.Driver.Util
 import CnfgenModel.Cli.Validate
 import CnfgenModel.Cli.Chain
 import CnfgenModel.Cli.Phases
+import CnfgenModel.Cli.PhaseTable
 import CnfgenModel.Cli.Msg
 namespace Cnfgen.Driver.Cli
 open Cnfgen Cnfgen.Driver Cnfgen.Cli
@@ -25,7 +26,7 @@ def handle (opname : String) (a : Args) : Option String :=
   | "phase" => run (do
       let s ← int; let has ← bool
       let c : Cmd := { seed := if has then some s else none, parseDraws := 1, buildDraws := 1 }
-      let r := firstEvents current c
+      let r := firstEvents sourceVariant c     -- the variant computed from the regenerated phase table
       pure (ok (toString (if r.1 then 1 else 0) ++ " " ++ toString r.2))) a
   | "errlines" => run (do
       let pre ← str; let prog ← str; let hasUsage ← bool; let usage ← listOf str; let message ← listOf str
@@ -34,8 +35,8 @@ def handle (opname : String) (a : Args) : Option String :=
   | "phase3" => run (do
       let s ← int; let has ← bool
       let c : Cmd := { seed := if has then some s else none, parseDraws := 1, buildDraws := 1 }
-      let r := firstEvents current c
-      pure (ok (toString (if r.1 then 1 else 0) ++ " " ++ toString r.2 ++ " " ++ toString (seedEvents current c)))) a
+      let r := firstEvents sourceVariant c
+      pure (ok (toString (if r.1 then 1 else 0) ++ " " ++ toString r.2 ++ " " ++ toString (seedEvents sourceVariant c)))) a
   | _ => none
 
 end Cnfgen.Driver.Cli
